@@ -158,7 +158,7 @@ def gen_grid_warm(tier, rng):
     return g[:: max(1, len(g) // k)]
 
 def gen_random_warm(tier, rng):
-    n = 600 if tier == "quick" else 10000
+    n = 6000 if tier == "quick" else 100000
     return [rand_lp(rng) for _ in range(n)]
 
 # ------------------------------------------------------------------------------------------------
